@@ -5,7 +5,7 @@ PROP = dict(
     level="exploration",
     engine="bex",
     technique="bounded-exhaustive enumeration of integer arguments on the real functions, each block in a forked child with watchdog; sieve / Miller-Rabin oracle; hook step counter",
-    claim="every argument in the stated ranges (all n <= 2^25 thorough, boundary windows at 2^16, 2^24, 2^31, 65521^2, 2^32, a 32-bit lattice, "
+    claim="every argument in the stated ranges (all n <= 2^26 thorough, boundary windows at 2^16, 2^24, 2^31, 65521^2, 2^32, a 32-bit lattice, "
           "semiprimes around 2^16, pseudoprime families; thorough: every base-2 Fermat pseudoprime below 2^32) is executed on the implementation and compared with an exact oracle, including a deterministic cost oracle; "
           "no sampling. Exhaustive within the bound, silent outside it.",
     note="trusts the harness's sieve/Miller-Rabin (cross-checked against each other on the overlap) and the DSPLIB_VERIF step-counter hook placement",
@@ -19,9 +19,9 @@ PROP = dict(
               "over 32 bits, all p*q<2^32 of the 40 primes nearest 2^16; adversarial composites < 2^32: every p*q with q-1=m(p-1), m<=16, every p*q*r with (r-1)|(pq-1), p<q<2000, "
               "and ~150 published strong pseudoprimes / Carmichael numbers (incl. 3215031751); primes(n) n<=1024 + 4 large; nextprime every n<=8192 + "
               "windows +-48; nextpow2/ispow2 every m<=2^20 and within 256 of every 2^k and INT_MAX",
-        thorough="isprime/factor: every n in [0,2^25], windows +-4096, lattice 4099*k+17 over the whole 32-bit range (1.05M points); adversarial composites: m<=64, p<q<6000, and EVERY odd composite "
+        thorough="isprime/factor: every n in [0,2^26], windows +-4096, lattice 4099*k+17 over the whole 32-bit range (1.05M points); adversarial composites: m<=64, p<q<6000, and EVERY odd composite "
                  "n<2^32 with 2^(n-1)=1 mod n (found by the harness scanning all 2^31 odd numbers); "
-                 "primes(n) n<=4096 + 4 large; nextprime every n<=65536 + windows +-256; pow2 helpers every m<=2^26 + windows"),
+                 "primes(n) n<=4096 + 4 large; nextprime every n<=262144 + windows +-256; pow2 helpers every m<=2^26 + windows"),
     deadline=dict(quick=150, thorough=1500),
     assumptions=COMMON_ASSUME + [
         "termination: a call that does not return within 8 s (normal: < 2 ms) is reported as a hang",
